@@ -37,12 +37,12 @@ import (
 //         on asleep-versus-awake (Polling is deliberately not distinguished on disk).
 
 type vpC30Poll struct {
-	release    chan error
-	parked     chan struct{}
-	done       chan error
-	wakesAt    int // completed wakes when the head ran
-	headRan    bool
-	finished   bool
+	release  chan error
+	parked   chan struct{}
+	done     chan error
+	wakesAt  int // completed wakes when the head ran
+	headRan  bool
+	finished bool
 }
 
 func TestVP_C30_Schedules(t *testing.T) {
